@@ -172,7 +172,7 @@ def main(argv=None):
         return 0
     budget = float(os.environ.get("VERIF_BUDGET_S", "0")) or getattr(mod, "BUDGET", {}).get(tier, 240 if tier == "quick" else 3600)
     hard = getattr(mod, "HARD_TIMEOUT", {}).get(tier) if isinstance(getattr(mod, "HARD_TIMEOUT", None), dict) else None
-    hard = hard or (75 if tier == "quick" else 400)
+    hard = hard or (150 if tier == "quick" else 400)
 
     from .pool import run_pool
 
